@@ -104,8 +104,8 @@ def scenarios(tier, seed):
             probes += [["std", {"ddof": 1}, kind], ["var", {"ddof": 1}, kind], ["std", {"ddof": 2}, kind]]
         sc.append(one(f"multi+ddof:{kind}", [], probes))
     # 8. the other members of the accelerated dtype families: narrower integers / floats, other datetime units
-    for kind in ["int32", "uint8", "int16", "uint64", "float32", "datetime_s", "datetime_ms", "datetime_ns"]:
-        probes = [[h, kw, kind] for h, kw in VARIANTS if ok_combo(h, "datetime" if kind.startswith("datetime_") else "int")]
+    for kind in ["int32", "uint8", "int16", "uint64", "float32", "datetime_s", "datetime_ms", "datetime_ns", "int_be", "float_be", "datetime_be", "date_be"]:
+        probes = [[h, kw, kind] for h, kw in VARIANTS if ok_combo(h, "datetime" if kind.startswith("date") else "int")]
         sc.append(one(f"narrow:{kind}", [], probes))
     # 9. ONE helper object applied to columns of different dtypes in turn (a kept dict of summaries): nothing learnt from an earlier column may leak
     for order in (["floatna", "date", "datetime_s", "int", "floatna"], ["date", "floatna", "datetime", "bool", "date"]):
@@ -190,7 +190,7 @@ def judge(sc, outs):
         for e in doc.get("errors", []):
             viol.append({"key": f"numba-prefix-raised:{e['helper']}:{e['kind']}", "msg": f"{sc['name']}: prefix step raised {e['error']}"})
         for dis in doc["disagreements"]:
-            viol.append({"key": f"numba-disagrees:{dis['helper']}:{dis['diff']}",
+            viol.append({"key": f"numba-disagrees:{dis['helper']}:{dis['diff']}" + (":inf-in-column" if dis.get("inf") else ""),
                          "msg": f"scenario {sc['name']} (history {history + step['prefix']}): {dis['helper']}{dis['kw']} on {dis['kind']} [{dis['tag']}]: "
                                 f"numba {dis['on']} vs python {dis['off']}; frame {dis['spec']}"})
         history = history + step["prefix"]
